@@ -389,7 +389,7 @@ func matchStr(s, pat string) bool {
 	if strings.HasSuffix(pat, "*") {
 		return strings.HasPrefix(s, strings.TrimSuffix(pat, "*"))
 	}
-	return s == pat
+	return litEq(s, pat)
 }
 
 // Arg keeps events whose i-th argument matches.
